@@ -8,7 +8,7 @@ PROP = dict(
               "Shangrla.Sampling.walk_spec", "Shangrla.Sampling.consistentSampling_spec",
               "Shangrla.Sampling.sortedPairs_perm", "Shangrla.Sampling.sortedPairs_strict",
               "Shangrla.Sampling.mem_sortedPairs", "Shangrla.Sampling.cCards_length"],
-    groups={"sampling": (1500, 40000)},
+    groups={"sampling": (8000, 40000)},
     design_ref="DESIGN.md section 5, C07",
     assumptions=[
         "contests are a dict keyed by contest id (Contest.from_dict_of_dicts): one contest per id; `current_sizes` is "
